@@ -1,4 +1,5 @@
 import MorfuseModel.Container.Model
+import MorfuseModel.Container.Spec
 /-!
 # Lemmas for the `con::Container` model
 
@@ -485,9 +486,6 @@ namespace Morfuse.Container
 variable {α : Type}
 
 /-! ### lookups -/
-
-/-- one-based position of the first occurrence, `0` when absent -/
-def posOf [DecidableEq α] (vs : List α) (v : α) : Nat := if v ∈ vs then vs.idxOf v + 1 else 0
 
 theorem indexOf_wf [DecidableEq α] {s : Cs α} {vs : List α} (h : WF s vs) (v : α) :
     indexOfObject s v = .ok (posOf vs v) := by
